@@ -1,5 +1,6 @@
 import Soa.Model.SkelIter
 import Soa.Lemmas.SkelRead.C06
+import Soa.Lemmas.SkelRead.C05
 /-!
 # Iterators: the extracted zip chains step every field alike
 
@@ -140,5 +141,32 @@ theorem delegations :
     isDelegation sk_aPVec_IntoIterator_into_iter "as_slice" "into_iter" = true ∧
     isDelegation sk_amutPVec_IntoIterator_into_iter "as_mut_slice" "into_iter" = true ∧
     isDelegation sk_PSliceMut_a_iter "as_ref" "into_iter" = true := by decide
+
+end Soa.Sk
+
+namespace Soa.Sk
+open Soa View Soa.Extracted Soa.Sk.Expected
+
+/-- **composition**: `vec.iter()` / `for x in &vec` are `self.as_slice().into_iter()`, `vec.iter_mut()` / `for x in &mut vec`
+    are `self.as_mut_slice().into_iter()` (`delegations`): running the two extracted functions one after the other on a
+    vector whose field arrays all have length `n` gives an iterator with one component per leaf over the whole array -/
+theorem vec_iter_composed (sh : Shape) (hw : sh.wf) (n : Nat) :
+    (match runView sk_PVec_as_slice (VT.uniform (.len n) sh) [] with
+     | .ok (.one s) => runIterNew sk_PSlice_a_into_iter s
+     | _ => .stuck) = .ok (VT.uniform (.win ⟨0, n⟩) sh) ∧
+    (match runView sk_PVec_as_mut_slice (VT.uniform (.len n) sh) [] with
+     | .ok (.one s) => runIterNew sk_PSliceMut_a_into_iter s
+     | _ => .stuck) = .ok (VT.uniform (.win ⟨0, n⟩) sh) := by
+  have h1 : runView sk_PVec_as_slice (VT.uniform (.len n) sh) [] = .ok (.one (VT.uniform (.win ⟨0, n⟩) sh)) := by
+    have hn : sk_PVec_as_slice.name = "as_slice" := by decide
+    simp [runView, Soa.Sk.read_PVec_as_slice, exp_PVec_as_slice, hn, runViewSk, itemExpr, nestOkView, subject,
+      mapR_uniform _ _ _ hw, viewLeaf, R.bind, R.map]
+  have h2 : runView sk_PVec_as_mut_slice (VT.uniform (.len n) sh) [] = .ok (.one (VT.uniform (.win ⟨0, n⟩) sh)) := by
+    have hn : sk_PVec_as_mut_slice.name = "as_mut_slice" := by decide
+    simp [runView, Soa.Sk.read_PVec_as_mut_slice, exp_PVec_as_mut_slice, hn, runViewSk, itemExpr, nestOkView, subject,
+      mapR_uniform _ _ _ hw, viewLeaf, R.bind, R.map]
+  have hi := iter_new_tie sh hw ⟨0, n⟩
+  rw [h1, h2]
+  exact ⟨hi.2.1, hi.2.2.2.2.2.1⟩
 
 end Soa.Sk
